@@ -185,7 +185,12 @@ Definition contractb_binary_auroc_update_input_check := c_tasks_w.
 Definition contractb_binary_auprc_update_input_check := c_tasks_row.
 Definition contractb_binary_binned_auroc_update_input_check := c_tasks.
 Definition contractb_binary_binned_auprc_update_input_check := c_tasks_row.
-Definition contractb_weighted_calibration_input_check := c_tasks.
+(* "If weight is a Tensor, its size should match the input tensor size": only a Python scalar weight broadcasts *)
+Definition contractb_weighted_calibration_input_check (e : env) : bool :=
+  c_tasks e && match arg e "weight", arg e "input" with
+               | ATensor w, ATensor s => shape_eqb w s
+               | ATensor _, _ => false
+               | _, _ => true end.
 Definition contractb_retrieval_precision_update_input_check := c_tasks.
 Definition contractb_retrieval_recall_update_input_check := c_tasks.
 Definition contractb_ne_input_check (e : env) : bool :=
